@@ -252,6 +252,67 @@ Definition cases : list case_t := [
 FOOTER = "\n].\nEval vm_compute in (map check cases).\n"
 
 
+def resume_case(rng):
+    """a search over a small finite space is killed between two oracle calls (nothing is saved beyond what the calls
+    themselves saved), a fresh oracle reloads the project and several tuners go on: across both processes no two trials may
+    start with the same configuration (Hyperband: among its round-0 trials; Bayesian: warm-up only)"""
+    import keras_tuner as kt
+    from keras_tuner.engine import hyperparameters as hpm
+    from keras_tuner.tuners import randomsearch, hyperband, bayesian
+    warnings.filterwarnings("ignore")
+    kind = rng.choice(["random", "random", "hyperband", "bayes"])
+    hps = hpm.HyperParameters()
+    shape = rng.choice(["ab", "choice", "cond"])
+    if shape == "ab": hps.Int("a", 0, rng.randint(1, 2)); hps.Boolean("b")
+    elif shape == "choice": hps.Choice("c", ["p", "q", "r", "s"][: rng.randint(2, 4)])
+    else:
+        hps.Choice("m", ["u", "v"])
+        with hps.conditional_scope("m", ["u"]): hps.Int("k", 1, 3)
+    sd = rng.randint(1, 10 ** 6); d = tempfile.mkdtemp(prefix="ktv06r_")
+    common = dict(objective=kt.Objective("score", "min"), seed=sd, max_retries_per_trial=rng.choice([0, 1]), max_consecutive_failed_trials=99)
+
+    def mk():
+        if kind == "random": o = randomsearch.RandomSearchOracle(max_trials=50, hyperparameters=hps.copy(), **common)
+        elif kind == "hyperband": o = hyperband.HyperbandOracle(max_epochs=rng0.choice([4, 9]), factor=3, hyperband_iterations=1, hyperparameters=hps.copy(), **common)
+        else: o = bayesian.BayesianOptimizationOracle(max_trials=50, num_initial_points=1000, hyperparameters=hps.copy(), **common)
+        o._set_project_dir(d, "p"); o._display.verbose = 0; return o
+    rng0 = random.Random(sd)
+    started = {}; log = []
+    try:
+        o = mk(); W = rng.randint(1, 3); held = {}
+        for phase, nst in (("first", rng.randint(1, 8)), ("resumed", rng.randint(4, 18))):
+            if phase == "resumed":
+                lc._release(o); rng0 = random.Random(sd); o = mk(); o.reload(); held = {}; W = rng.randint(2, 4); log.append(("kill+reload",))
+            for _ in range(nst):
+                tn = "w%d" % rng.randrange(W)
+                if tn in held and rng.random() < 0.6:
+                    t = held.pop(tn)
+                    if rng.random() < 0.75:
+                        o.update_trial(t.trial_id, {"score": float(rng.randint(-5, 5))}); t.status = "COMPLETED"
+                    else:
+                        t.status = rng.choice(["INVALID", "FAILED"])
+                    o.end_trial(t); log.append(("end", t.trial_id, t.status))
+                elif tn not in held:
+                    t = o.create_trial(tn); log.append(("create", tn, t.trial_id, t.status))
+                    if t.status != "RUNNING":
+                        continue
+                    held[tn] = t
+                    v = {k: x for k, x in t.hyperparameters.values.items() if not k.startswith("tuner/")}
+                    if kind == "hyperband" and t.hyperparameters.values.get("tuner/round", 0) != 0:
+                        continue
+                    if t.trial_id in started:
+                        continue
+                    for i, w in started.items():
+                        if w == v:
+                            return dict(kind=kind, shape=shape, seed=sd), "%s oracle, %s process: trial %s was started with %r, the configuration of trial %s (log %r)" % (kind, phase, t.trial_id, v, i, log[-12:])
+                    started[t.trial_id] = v
+        return dict(kind=kind, shape=shape, seed=sd), None
+    finally:
+        try: lc._release(o)
+        except Exception: pass
+        shutil.rmtree(d, ignore_errors=True)
+
+
 def run(ctx):
     n = ctx.n(120, 1500)
     terms = []; infos = []; failures = []
@@ -285,6 +346,12 @@ def run(ctx):
         stats["sampling_histories"] += 1
         if msg:
             failures.append(Failure("violation", "C06/duplicate-start-" + cfg["kind"], msg, {"cfg": cfg}))
+    for j in range(ctx.n(60, 800)):
+        info, msg = resume_case(ctx.rng)
+        stats["resume_histories"] = stats.get("resume_histories", 0) + 1
+        if msg:
+            failures.append(Failure("violation", "C06/duplicate-start-after-resume-" + info["kind"], msg, {"note": "regenerated from the run seed", "info": info}))
+            break
     stats["t_sampling_s"] = round(_t.time() - _t0, 1); _t0 = _t.time()
     verdicts, errors, wall = runcoq.run_cases(ctx.workdir, HEADER, terms, FOOTER, chunk=8)
     stats["t_coq_total_s"] = round(_t.time() - _t0, 1)
@@ -301,7 +368,7 @@ def run(ctx):
     return dict(evaluations=n, distinct_nontrivial=distinct, traces_validated=n - ndiff,
                 rule="RandomSearchOracle over generated spaces of 0-4 entries (small finite Int/Choice/Boolean/Fixed/stepped Float and one large Int, conditions on "
                      "earlier entries), budgets None/2/4/8 above and below the number of configurations, 1-3 tuners, 30% of ended trials declare a new (conditional) "
-                     "entry, retries, save+reload; plus Hyperband and Bayesian histories for the implementation-level clause; non-trivial = distinct (space, config) with >= 2 started trials",
+                     "entry, retries, save+reload; plus Hyperband and Bayesian histories for the implementation-level clause, and searches over small finite spaces killed between two calls and resumed by several tuners; non-trivial = distinct (space, config) with >= 2 started trials",
                 samples=infos[:2], failures=failures, stats=stats)
 
 
